@@ -28,7 +28,8 @@ type cursorManager struct {
 	*Server
 	mu           sync.RWMutex
 	cache        *lru.Cache
-	disableCache bool // Used for testing purposes only
+	sets         uint64 // Number of SetCursor calls that reached the cursors stream, guarded by mu
+	disableCache bool   // Used for testing purposes only
 }
 
 func newCursorManager(s *Server) *cursorManager {
@@ -127,6 +128,7 @@ func (c *cursorManager) SetCursor(ctx context.Context, streamName, cursorID stri
 	// and in-memory cache even though the cache itself is thread-safe.
 	c.mu.Lock()
 	defer c.mu.Unlock()
+	c.sets++
 
 	_, err = c.api.Publish(ctx, &client.PublishRequest{
 		Key:       cursorKey,
@@ -164,14 +166,15 @@ func (c *cursorManager) GetCursor(ctx context.Context, streamName, cursorID stri
 		return 0, status.New(codes.FailedPrecondition, "Server not cursor partition leader")
 	}
 
+	c.mu.RLock()
+	sets := c.sets
 	if !c.disableCache {
-		c.mu.RLock()
 		if offset, ok := c.cache.Get(string(cursorKey)); ok {
 			c.mu.RUnlock()
 			return offset.(int64), nil
 		}
-		c.mu.RUnlock()
 	}
+	c.mu.RUnlock()
 
 	// Find the latest offset for the cursor in the log.
 	offset, err := c.getLatestCursorOffset(ctx, cursorKey, partition)
@@ -179,9 +182,13 @@ func (c *cursorManager) GetCursor(ctx context.Context, streamName, cursorID stri
 		return 0, status.New(codes.Internal, err.Error())
 	}
 
-	// Cache the offset.
+	// Cache the offset unless a cursor was stored while the log was being
+	// read: the offset read may then be older than the one SetCursor cached,
+	// and caching it would make every later fetch return a stale cursor.
 	c.mu.Lock()
-	c.cache.Add(string(cursorKey), offset)
+	if c.sets == sets {
+		c.cache.Add(string(cursorKey), offset)
+	}
 	c.mu.Unlock()
 
 	return offset, nil
